@@ -10,7 +10,9 @@ RULE = ("cases: cmpct: real segwit blocks of 1..40 transactions (coinbase with c
         "compact blocks over the wire format with every kind of prefilled set (coinbase only, coinbase+last, a prefix, random, everything), "
         "mempools holding none / some / all of the block's transactions plus unrelated ones, extra-pool subsets (also overlapping the "
         "mempool), and blocktxn responses that are exact, one short, one long, swapped, contain a foreign transaction, or empty; segwit "
-        "active and inactive; wrong header merkle root; cmpctraw: hand-made announcements exercising the prefilled index arithmetic "
+        "active and inactive; wrong header merkle root; witness stripping by the peer (prefilled coinbase without its witness reserved value, "
+        "witness-stripped versions of all / all but one / one of the witness transactions in the prefilled set or the response, with nothing or "
+        "the untouched transactions in the mempool); cmpctraw: hand-made announcements exercising the prefilled index arithmetic "
         "(differential indexes 0, at and beyond shorttxids.size()+i, 65535 sums, null transactions, null header, empty announcement, "
         "the transaction-count limit). Non-trivial = at least two transactions; distinct = distinct lines.")
 ASSUMPTIONS = ["the final guarantee goes through C04: SHA256d collision free on the values in play and no txid is an inner-node value (premises of C38_fill_ok_is_announced)",
@@ -53,17 +55,31 @@ def gen(rng, tier):
                         extra = [i for i in rest if rng.random() < 0.25]
                         segwit = 0 if rng.random() < 0.15 else 1
                         hdr = root if rng.random() > 0.07 else rng.randbytes(32)
-                        cases.append("cmpct %d %d %s 1 %s %s %s %s %s %d %s %s %s" % (
+                        cases.append("cmpct %d %d %s 1 %s %s %s %s %s %d %s - %s %s" % (
                             segwit, rng.getrandbits(64), hdr.hex(), com.hex(), m4.stack_tok([nonce32]),
                             idx(pre), idx(mem), idx(extra), rng.choice([0, 1, 5]), spec, m4.tok(other),
                             " ".join(m4.tok(t) for t in txs)))
+            # witness stripping by the announcing peer (txids, merkle root and block hash unchanged): the prefilled coinbase
+            # without its witness reserved value and / or witness-stripped versions of the witness-carrying transactions
+            wit = [i for i in range(n) if txs[i][0] != txs[i][1]]          # includes the coinbase (position 0)
+            strips = [wit, [0], [i for i in wit if i != 0]]
+            if len(wit) >= 2:
+                strips += [wit[:-1], wit[1:-1] + [0] if len(wit) > 2 else [0], [rng.choice(wit[1:])]]
+            for st in strips:
+                for pre in ([0], [0, n - 1], list(range(n)), sorted(set([0] + [i for i in range(1, n) if rng.random() < 0.4]))):
+                    rest = [i for i in range(1, n) if i not in pre]
+                    for mem in ([], [i for i in rest if i not in st]):
+                        for segwit in (1, 1, 0):
+                            cases.append("cmpct %d %d %s 1 %s %s %s %s - %d exact %s %s %s" % (
+                                segwit, rng.getrandbits(64), root.hex(), com.hex(), m4.stack_tok([nonce32]),
+                                idx(pre), idx(mem), rng.choice([0, 2]), idx(st), m4.tok(other), " ".join(m4.tok(t) for t in txs)))
             # a block with a duplicated tail (CVE-2012-2459 shape): duplicate short ids
             if n in (3, 5):
                 dup = txs + [txs[-1]]
-                cases.append("cmpct 1 %d %s 1 %s %s 0 - - 0 exact %s %s" % (rng.getrandbits(64), root.hex(), com.hex(), m4.stack_tok([nonce32]),
+                cases.append("cmpct 1 %d %s 1 %s %s 0 - - 0 exact - %s %s" % (rng.getrandbits(64), root.hex(), com.hex(), m4.stack_tok([nonce32]),
                                                                             m4.tok(other), " ".join(m4.tok(t) for t in dup)))
                 # ... with one of the copies prefilled, so that the short ids are distinct
-                cases.append("cmpct 1 %d %s 1 %s %s %s %s - 0 exact %s %s" % (rng.getrandbits(64), root.hex(), com.hex(), m4.stack_tok([nonce32]),
+                cases.append("cmpct 1 %d %s 1 %s %s %s %s - 0 exact - %s %s" % (rng.getrandbits(64), root.hex(), com.hex(), m4.stack_tok([nonce32]),
                                                                              idx([0, len(dup) - 1]), idx(list(range(1, n))), m4.tok(other),
                                                                              " ".join(m4.tok(t) for t in dup)))
     # hand-made announcements: prefilled index arithmetic
@@ -88,7 +104,7 @@ def canon(s):
 
 
 TIES = [Tie("cmpct_fn", "tie/drivers/cmpct_drv.cpp", "Extract_Cmpct.v", "cmpct_driver.ml", gen,
-            predicate="driver", canon=canon, nontrivial=lambda c: len(c.split()) >= 15 or c.startswith("cmpctraw"), extra_ml=("merkle_sha256.ml",))]
+            predicate="driver", canon=canon, nontrivial=lambda c: len(c.split()) >= 16 or c.startswith("cmpctraw"), extra_ml=("merkle_sha256.ml",))]
 
 LEVEL_TEXT = ("Coq theorems: FillBlock returns READ_STATUS_INVALID exactly when the object is unused or the blocktxn response does not have one "
               "transaction per unavailable slot; an OK result is the available transactions with the response merged in order and has passed "
